@@ -21,7 +21,10 @@
              real X(t, **opts) parsed to the exp-poly normal form, compared inside
              Coq (Eval vm_compute over Q(i)) with the model fed Lcapy's own
              (Q, R, P, O) certificates (checked by the verified pf_check), plus the
-             verified round trip L(Lcapy's output) = input for every case
+             verified round trip L(Lcapy's output) = input for every case;
+             poles outside Q(i) (alpha +- beta sqrt d, alpha +- i beta sqrt d) the same way over the
+             fields Q(i)(sqrt d) of LT.ILTQext with the generic glue LT.ILTCorrX (casesx_*.v,
+             Gen/C10_qext.v: ILT_LT_cert_qext, model_eval_qext, case_rt_sound_qext)
   search     exact oracle independent of Coq and of Lcapy's forward transform: the
              algebraic L of the parsed output equals the input at random Gaussian
              rational points, per delay; cache transparency; limits for initial and
@@ -39,6 +42,7 @@ from vlib import core
 sys.path.insert(0, os.path.join(core.VERIF, 'tools'))
 import tr_ilt as T
 from ilt_exact import G, fstr, padd, pmul, pscale, peval, pnorm, from_roots, laplace_normal_form, qc, qi, qilist, gsqrt_rational
+import ilt_qext as XQ
 
 PID = 'C10'
 MANIFEST = {
@@ -55,20 +59,26 @@ MANIFEST = {
             'and division are oracles: Lcapy\'s (Q,R,P,O) are accepted only through the verified checker pf_check. The hand model is validated '
             'on each run inside Coq (vm_compute over Q(i)) against the real X(t, **opts) - with the delays computed by the translated '
             'definitions and Lcapy\'s residues compared with both the formula model and the jet residues - and L(Lcapy\'s own output) = input '
-            'is certified per case by the verified round-trip checker.',
+            'is certified per case by the verified round-trip checker. Poles, residues and exponents that are NOT Gaussian rationals '
+            '(alpha +- beta sqrt d real, alpha +- i beta sqrt d, simple and double, mixed with rational/Gaussian poles, delays, improper) are '
+            'inside the same comparison: the quadratic extensions Q(i)(sqrt d), d prime, are proved to be fields (ILTQext.prime_nonsq: a '
+            'prime is not a square in Q(i), by descent; QxF : fld, executable), the main theorems are instantiated over them '
+            '(ILT_LT_cert_qext, model_eval_qext, case_rt_sound_qext) and the generic glue ILTCorrX evaluates model = Lcapy, pf_check of '
+            'Lcapy\'s (Q,R,P,O), the jet residues and the verified round trip over Q(i)(sqrt 2) and Q(i)(sqrt 3) on every run.',
     'note': 'Trusted: Coq kernel/vm_compute; tools/tr_ilt.py + statement templates in checks/c10.py; the sympy-based parser of the time '
             'function in tools/impl_ilt.py; specification coq/theory/ExpPoly.v (L as the linear map t^n/n! e^{pt} -> 1/(s-p)^{n+1}, '
             'delta^(k) -> s^k, cos/sin by Euler; analytic meaning of the table entry for real s > p in ExpPolyAnalysis.v). Partial: '
             'sympy.roots and polynomial division are oracles checked per case; that the iterated symbolic derivative expr.diff(var)^k / k! '
             'of the rational function equals the k-th jet coefficient is proved for k <= 1 (residue_sub_simple/double) and compared per '
             'case inside Coq for k >= 2 (the higher-order quotient rule is not proved); convolution results of product_undef1 are '
-            'classified, not evaluated.',
+            'classified, not evaluated. Irrational poles: square roots of the primes 2 and 3 only (one extension per case; nested radicals, cubic '
+            'irrationalities and do_damped_sin with irrational omega are compared by the exact/numeric search oracle only).',
     'technique': 'Coq proof over abstract fields (signal algebra + polynomial theory) with source-translated closed forms, residue '
                  'divisor and delay bookkeeping + in-Coq correspondence evaluation over Gaussian rationals + verified per-case '
                  'certificate checking + exact search oracle',
 }
 
-THEORY = ['FieldSec', 'PolyQ', 'QcI', 'ExpPoly', 'ILT', 'ILTResidue', 'ILTCorr', 'ExpPolyAnalysis']
+THEORY = ['FieldSec', 'PolyQ', 'QcI', 'ExpPoly', 'ILT', 'ILTResidue', 'ILTCorr', 'ExpPolyAnalysis', 'ILTQext', 'ILTCorrX']
 HEADER = '(* GENERATED by checks/c10.py from the translation of %s. Do not edit. *)\n'
 
 # known classes of failing inputs (keys are matched against known_findings.json)
@@ -429,8 +439,11 @@ def case_json(c):
         terms.append({'c': fstr(tm['c']), 'T': fstr(tm['T']), 'B': [g.js() for g in tm['B']], 'A': [g.js() for g in tm['A']],
                       'roots': [[p.js(), m] for p, m in tm['roots']], 'lead': [fstr(tm['lead']), '0/1'], 'form': tm.get('form', 'ratio'),
                       'pat': tm['pat']})
-    return {'terms': terms, 'const': fstr(c['const']), 'opts': c['opts'], 'damping': c['damping'], 'ivfv': c['ivfv'],
-            'nested': c.get('nested', False), 'expect_error': c.get('expect_error', False)}
+    out = {'terms': terms, 'const': fstr(c['const']), 'opts': c['opts'], 'damping': c['damping'], 'ivfv': c['ivfv'],
+           'nested': c.get('nested', False), 'expect_error': c.get('expect_error', False)}
+    if c.get('sqrtd'):
+        out['sqrtd'] = int(c['sqrtd'])       # the case lives in Q(i)(sqrt d): poles / residues outside the Gaussian rationals
+    return out
 
 
 def case_from_json(j):
@@ -439,8 +452,11 @@ def case_from_json(j):
         terms.append({'c': Fraction(tm['c']), 'T': Fraction(tm['T']), 'B': [G.of(g) for g in tm['B']], 'A': [G.of(g) for g in tm['A']],
                       'roots': [(G.of(p), m) for p, m in tm.get('roots', [])], 'lead': Fraction(tm.get('lead', ['1/1'])[0]),
                       'form': tm.get('form', 'ratio'), 'pat': tm.get('pat', '?')})
-    return {'terms': terms, 'const': Fraction(j['const']), 'opts': j['opts'], 'damping': j.get('damping'), 'ivfv': j.get('ivfv', False),
-            'nested': j.get('nested', False), 'expect_error': j.get('expect_error', False)}
+    out = {'terms': terms, 'const': Fraction(j['const']), 'opts': j['opts'], 'damping': j.get('damping'), 'ivfv': j.get('ivfv', False),
+           'nested': j.get('nested', False), 'expect_error': j.get('expect_error', False)}
+    if j.get('sqrtd'):
+        out['sqrtd'] = int(j['sqrtd'])
+    return out
 
 
 def mk_case(terms, const=1, opts=(), damping=None, ivfv=None, **kw):
@@ -577,7 +593,231 @@ def gen_cases(rng, tier):
                 terms[k] = tm
             nested = True
         cases.append(mk_case(terms, const=const, opts=opts, damping=damping, nested=nested, **({'ivfv': False} if nested else {})))
+    for c in cases:
+        dx = ds_ext_degree(c)
+        if dx:
+            c['sqrtd'] = dx      # do_damped_sin with omega0 = q sqrt(d): evaluated over Q(i)(sqrt d)
     return cases
+
+
+# ------------------------------------------------------------------ poles outside Q(i): cases over Q(i)(sqrt d)
+XDS = [2, 3]
+XPATTERNS = ['irr_real', 'irr_cpx', 'irr_mixed', 'irr_real_rep', 'irr_cpx_rep']
+
+
+def xpeval(p, x, d):
+    r = XQ.QX(0, 0, d)
+    for a in reversed(p):
+        r = r * x + XQ.QX.of(a, d)
+    return r
+
+
+def gen_xterm(rng, d, pat, improper=None):
+    """a rational function with RATIONAL coefficients whose poles are alpha +- beta sqrt(d) (real, irrational) and/or
+    alpha +- i beta sqrt(d), simple or double, possibly together with rational / Gaussian poles"""
+    al = lambda: rng.choice([Fraction(-1), Fraction(-2), Fraction(0), Fraction(-1, 2), Fraction(1), Fraction(-3)])
+    be = lambda: rng.choice([Fraction(1), Fraction(1, 2), Fraction(2), Fraction(3, 2)])
+
+    def rpair(m):
+        a, b = al(), be()
+        return [(XQ.QX(G(a), G(b), d), m), (XQ.QX(G(a), G(-b), d), m)]
+
+    def cpair(m):
+        a, b = al(), be()
+        return [(XQ.QX(G(a), G(0, b), d), m), (XQ.QX(G(a), G(0, -b), d), m)]
+    if pat == 'irr_real':
+        roots = rpair(1)
+    elif pat == 'irr_cpx':
+        roots = cpair(1)
+    elif pat == 'irr_real_rep':
+        roots = rpair(2)
+    elif pat == 'irr_cpx_rep':
+        roots = cpair(2)
+    else:
+        roots = rpair(1) + cpair(1)
+    u = rng.random()
+    if u < 0.3:
+        roots.append((XQ.QX(G(rng.choice(REALS)), G(0), d), rng.randint(1, 2)))
+    elif u < 0.45:
+        roots.append((XQ.QX(G(0), G(0), d), 1))
+    elif u < 0.6 and pat != 'irr_mixed':
+        a, b = rng.choice(CRE), rng.choice(CIM)
+        roots += [(XQ.QX(G(a, b), G(0), d), 1), (XQ.QX(G(a, -b), G(0), d), 1)]
+    lead = Fraction(rng.choice([1, 1, 2, 3, -1]), rng.choice([1, 1, 2]))
+    A = XQ.rational_poly(XQ.xfrom_roots(roots, d, lead))
+    degA = len(A) - 1
+    if improper is None:
+        improper = rng.random() < 0.3
+    degB = degA + rng.randint(0, 2) if improper else rng.randint(0, degA - 1)
+    for _ in range(50):
+        B = [G(rnd_rat(rng)) for _ in range(degB + 1)]
+        if B[-1].is_zero():
+            B[-1] = G(1)
+        if all(not xpeval(B, p, d).is_zero() for p, _ in roots):
+            break
+    return {'B': B, 'A': A, 'roots': [], 'xroots': roots, 'lead': lead, 'pat': pat, 'improper': degB >= degA}
+
+
+def gen_xcases(rng, tier):
+    """sums of 1-2 delayed rational functions with irrational poles; the options as in gen_cases except damped_sin=True
+    (do_damped_sin is covered over Q(i) only)"""
+    out = []
+    n = 14 if tier == 'quick' else 150
+    k0 = rng.randint(0, 1000)
+    for i in range(n):
+        d = XDS[i % len(XDS)]
+        pat = XPATTERNS[i % len(XPATTERNS)]
+        nterms = 2 if i % 4 == 3 else 1
+        delays = ([Fraction(0)] if i % 3 else []) + rng.sample(DELAYS, 2)
+        terms = []
+        for k in range(nterms):
+            if k == 0:
+                tm = gen_xterm(rng, d, pat)
+            else:
+                tm = gen_term(rng, rng.choice(['real_simple', 'cpx_pair', 'origin', 'real_repeated', 'poly_only']))
+            tm['c'] = rnd_rat(rng, nz=True) if rng.random() < 0.5 else Fraction(1)
+            tm['T'] = delays[k]
+            tm['form'] = rng.choice(['ratio', 'ratio', 'sum'])
+            terms.append(tm)
+        opts, damping = gen_opts(rng, k0 + i)
+        opts = [[o[0], False] if o[0] == 'damped_sin' else o for o in opts]
+        const = rng.choice([Fraction(1), Fraction(1), Fraction(2), Fraction(-3), Fraction(1, 2)])
+        out.append(mk_case(terms, const=const, opts=opts, damping=damping, ivfv=False, sqrtd=d))
+    return out
+
+
+DS_EXT = True          # second-order sections whose sqrt witnesses lie in Q(i)(sqrt d), d in XPRIMES: model evaluated over that field
+XPRIMES = (2, 3, 5, 7, 13, 17)
+
+
+def ds_on(opts):
+    val = None
+    for o in opts:
+        if o[0] == 'damped_sin':
+            val = o[1]
+    return bool(val)
+
+
+def ds_ext_degree(c):
+    """d if the case has damped_sin=True and a real second-order section whose omega0 = sqrt(d2/d0) is q*sqrt(d) with d in XPRIMES
+    (and no section needing another radical); None otherwise"""
+    if not DS_EXT or not ds_on(c['opts']) or c.get('expect_error') or c.get('sqrtd'):
+        return None
+    ds = set()
+    for tm in c['terms']:
+        B, A = pnorm(tm['B']), pnorm(tm['A'])
+        if max(len(B), len(A)) - 1 != 2 or len(A) != 3 or not all(x.is_real() for x in A + B):
+            continue
+        rad1 = A[0].re / A[2].re
+        if rad1 == 0 or gsqrt_rational(rad1) is not None:
+            rad2 = 1 - (A[1].re / A[2].re) ** 2 / (4 * rad1) if rad1 != 0 else 0
+            if rad1 == 0 or rad2 == 0 or gsqrt_rational(rad2) is not None:
+                continue
+            ds.add(XQ.squarefree_class(rad2))
+        else:
+            ds.add(XQ.squarefree_class(rad1))
+    if len(ds) == 1 and list(ds)[0] in XPRIMES:
+        return list(ds)[0]
+    return None
+
+
+def ds_source_x(tm, opts, d, ds_guard=False, deg_guard=False, real_guard=False):
+    """ds_source over Q(i)(sqrt d): (kind, coq)"""
+    if not ds_on(opts):
+        return 'cert', None
+    B, A = pnorm(tm['B']), pnorm(tm['A'])
+    deg = max(len(B), len(A)) - 1
+    if deg != 2:
+        return 'cert', None
+    if len(A) != 3:
+        return ('cert', None) if deg_guard else ('skip', None)
+    if not all(x.is_real() for x in A + B):
+        nonreal = any(not (x / B[-1]).is_real() for x in B) or any(not (x / A[-1]).is_real() for x in A)
+        return ('cert', None) if (real_guard and nonreal) else ('skip', None)
+    dd = high_first(A)
+    n = high_first(B)
+    d0, d1, d2 = dd[0].re, dd[1].re, dd[2].re
+    w1 = XQ.xsqrt_rational(d2 / d0, d)
+    if w1 is not None and w1.is_zero() and deg_guard:
+        return 'cert', None
+    if w1 is None or w1.is_zero():
+        return 'skip', None
+    zeta = XQ.QX.of(G(d1 / d0), d) / (XQ.QX.of(G(2), d) * w1)
+    rad2 = XQ.QX.of(G(1), d) - zeta * zeta
+    if not (rad2.b.is_zero() and rad2.a.is_real()):
+        return 'skip', None
+    w2 = XQ.xsqrt_rational(rad2.a.re, d)
+    if w2 is None:
+        return 'skip', None
+    if w2.is_zero() and not ds_guard:
+        return 'skip', None
+    if (w1 * w2).is_zero() and ds_guard:
+        return 'cert', None
+    k = len(n)
+    X = lambda v: XQ.xq(v, d)
+    args = ' '.join(X(x) for x in n + dd) + ' ' + X(w1) + ' ' + X(w2)
+    chk = '(feqb (K:=KX) (@fmul KX %s %s) (ds%d_rad1 jX %s) && feqb (K:=KX) (@fmul KX %s %s) (ds%d_rad2 jX %s))' % (X(w1), X(w1), k, args, X(w2), X(w2), k, args)
+    u = 'den KX jX (ds%d_u jX %s)' % (k, args)
+    cc = 'den KX jX (ds%d_c jX %s)' % (k, args) if k == 3 else 'Some (zero_sig (K:=KX))'
+    pair = '(FromPair (K:=KX) (if %s then match %s, %s with Some c_, Some u_ => Some (c_, u_) | _, _ => None end else None))' % (chk, cc, u)
+    return 'pair', pair
+
+
+def coq_case_x(i, c, r, ds_guard=False, deg_guard=False, real_guard=False):
+    """Coq text of one case evaluated over Q(i)(sqrt d) with the generic glue LT.ILTCorrX (same verdict bits)"""
+    d = c['sqrtd']
+    X = lambda v: XQ.xq(v, d)
+    XL = lambda l: XQ.xqlist(l, d)
+    if 'certs' not in r or 'obs' not in r or 'unparsed' in r['obs']:
+        return None, {}
+    kw = []
+    for o in c['opts']:
+        if o[0] in ('causal', 'ac', 'dc'):
+            kw.append('(%s, %s)' % ({'causal': 'Acausal', 'ac': 'Aac', 'dc': 'Adc'}[o[0]], 'true' if o[1] else 'false'))
+    kw = '[' + '; '.join(kw) + ']'
+    F, dchk, rchk, srcs = [], [], [], []
+    use_model = True
+    nds = 0
+    T0n = min(tm['T'] for tm in c['terms']) if c.get('nested') else None
+    for tm, ce in zip(c['terms'], r['certs']):
+        ts = '[' + '; '.join('(%s, %s, %d%%nat)' % (X(a), X(p), o) for a, p, o in zip(ce['R'], ce['P'], ce['O'])) + ']'
+        F.append('mkterm %s %s %s %s %s %s' % (X(G(tm['c'])), delay_lit(tm['T'], T0n), XL(ce['Q']), ts, XL(tm['B']), XL(tm['A'])))
+        kind, stxt = ds_source_x(tm, c['opts'], d, ds_guard, deg_guard, real_guard)
+        if kind == 'skip':
+            use_model = False
+        if kind == 'pair':
+            srcs.append(stxt)
+            nds += 1
+        else:
+            srcs.append('FromCert (K:=KX)')
+        if tm['T'] != 0:
+            dchk.append('qc_eqb (shift_u_gen %s) (shift_c_gen %s) && qc_eqb (step_gen %s) (shift_c_gen %s)' % ((qc(tm['T']),) * 4))
+        sub = ce.get('sub') or {}
+        if 'R' in sub:
+            poles = '[' + '; '.join('(%s, %d%%nat)' % (X(p), n) for p, n in sub['poles']) + ']'
+            rchk.append('residues_chk_d (K:=KX) res_sel_gen res_div_gen %s %s %s %s [%s]' % (
+                poles, XL(sub['B']), XL(sub['R']), XL(sub['P']), '; '.join('%d%%nat' % o for o in sub['O'])))
+    o = r['obs']
+    reg = '[' + '; '.join('(%s, %d%%nat, %s, %s, %s)' % (qc(e[0]), e[1], X(e[2]), X(e[3]), 'true' if e[4] else 'false') for e in o['reg']) + ']'
+    sing = '[' + '; '.join('(%s, %d%%nat, %s)' % (qc(e[0]), e[1], X(e[2])) for e in o['sing']) + ']'
+    obs = '(Obs (K:=KX) %s %s %s)' % ('true' if o['cond'] else 'false', reg, sing)
+    def optq(v, ok):
+        return '(someq (K:=KX) %s)' % X(v) if (ok and isinstance(v, list)) else 'None'
+    iv_ok, fv_ok = ivfv_applicable(c)
+    txt = '(%d%%nat, Nat.add (Nat.add (case_code (K:=KX) qxconj (B_gen KX jX) guard_gen %s %s [%s] [%s] %s %s %s %s) (bit (%s) 32)) (bit (%s) 64))' % (
+        i, kw, X(G(c['const'])), ';\n     '.join(F), '; '.join(srcs), 'true' if use_model else 'false', obs, optq(r.get('iv'), iv_ok), optq(r.get('fv'), fv_ok),
+        ' && '.join('(%s)' % x for x in rchk) if rchk else 'true', ' && '.join('(%s)' % x for x in dchk) if dchk else 'true')
+    return txt, {'ds': nds, 'use_model': use_model, 'res_sub': len(rchk)}
+
+
+def casesx_v(items, d):
+    lines = [HEADER % ('(cases over Q(i)(sqrt %d))' % d),
+             'Require Import LT.FieldSec LT.PolyQ LT.QcI LT.ExpPoly LT.ILT LT.ILTQext LT.ILTCorrX Gen.ILTGen.\n',
+             'Notation KX := Qx%dF.\nDefinition X (a b : qci) : KX := QX a b.\nDefinition jX : KX := qxj.\n' % d,
+             'Definition cases : list (nat * nat) := [']
+    lines.append(';\n'.join(items))
+    lines.append('].\nEval vm_compute in (failing cases).\n')
+    return '\n'.join(lines)
 
 
 # ------------------------------------------------------------------ model inputs
@@ -775,7 +1015,11 @@ def oracle_obs(c, o, rng, caus_true, other_true, tag=''):
                 for tm in c['terms']:
                     if tm['T'] == T:
                         want = want + G(c['const'] * tm['c']) * peval(tm['B'], s0) / peval(tm['A'], s0)
-                got = laplace_normal_form(o, T, s0)
+                if c.get('sqrtd'):
+                    got = XQ.xlaplace_normal_form(o, T, s0, c['sqrtd'])
+                    want = XQ.QX.of(want, c['sqrtd'])
+                else:
+                    got = laplace_normal_form(o, T, s0)
             except ZeroDivisionError:
                 continue
             if got != want:
@@ -874,6 +1118,8 @@ def dropped_delay_pieces(c, r, rng):
 
 def classify(c, r, kinds, code, rng):
     """structural fingerprint of a failing case -> key"""
+    if c.get('sqrtd'):
+        return ('xcase:' if any(tm['pat'].startswith('irr_') for tm in c['terms']) else 'xcase-ds:') + (','.join(sorted(set(kinds))) or 'coq-code-%d' % code)
     ds_on = None
     for o in c['opts']:
         if o[0] == 'damped_sin':
@@ -947,7 +1193,7 @@ def run(tier='quick', replay=None):
             'translator tools/tr_ilt.py (sha256 %s) + statement/proof templates in checks/c10.py' % core.sha256_file(trp)[:16],
             'specification coq/theory/ExpPoly.v: signals Sigma c t^n/n! e^{pt} + Sigma d_k delta^(k), delays as symbolic exponents; L defined termwise '
             '(table entry = Laplace integral for real s > p: ExpPolyAnalysis.v, Coquelicot); cos/sin by Euler with j*j = -1 (ILT.den)',
-            'hand model coq/theory/ILT.v of ratfun loop / term / make / doit / Assumptions.set / cache; executable comparison ILTCorr.v; polynomial theory PolyQ.v (pf_check_sound), Gaussian rationals QcI.v',
+            'hand model coq/theory/ILT.v of ratfun loop / term / make / doit / Assumptions.set / cache; executable comparison ILTCorr.v (ILTCorrX.v over any executable field); polynomial theory PolyQ.v (pf_check_sound), Gaussian rationals QcI.v, quadratic extensions ILTQext.v',
             'parser of Lcapy\'s time function into the normal form (tools/impl_ilt.py, sympy rewrite(exp)/expand) and exact harness arithmetic tools/ilt_exact.py',
             'oracles, not verified: sympy.roots, polynomial division, residue computation, .simplify() - accepted only through pf_check / compared as normal forms',
         ]
@@ -1009,7 +1255,18 @@ def run(tier='quick', replay=None):
             res.coq_results(w.dir, r1, {f: texts[f] for f in files1})
             r2 = core.coqc_many(w.dir, list(files2), timeout=900)
             res.coq_results(w.dir, r2, {f: texts[f] for f in files2})
-            res.extra['coq_seconds'] = {f: round(r[2], 1) for f, r in list(r1.items()) + list(r2.items())}
+            # instances over Q(i)(sqrt d) (needs C10_guard.vo)
+            files3 = {'C10_qext.v': qext_v(tr)}
+            for fn_, txt in files3.items():
+                texts[fn_] = txt
+                w.write(fn_, txt)
+            bad3 = core.gate_text('generated', texts['C10_qext.v'])
+            if bad3:
+                res.failed_obl.append(('gate', 'C10_qext.v', '; '.join(bad3)))
+                res.obligations += 1
+            r3 = core.coqc_many(w.dir, list(files3), timeout=600)
+            res.coq_results(w.dir, r3, {f: texts[f] for f in files3})
+            res.extra['coq_seconds'] = {f: round(r[2], 1) for f, r in list(r1.items()) + list(r2.items()) + list(r3.items())}
             guard_broken = any(n in ('pair_guard_sound', 'ILT_LT_gen', 'ILT_LT_cert_gen', 'ivt_fvt_gen') for n, _, _ in res.failed_obl)
 
         # 3. correspondence + oracle on the real code
@@ -1020,11 +1277,12 @@ def run(tier='quick', replay=None):
                 # the guard obligation is broken: search its failing input (repeated conjugate pole pairs) as in a full run
                 cases += corpus_cases()[:2]
         else:
-            cases = gen_cases(rng, tier) + undef_cases(rng, tier)
+            cases = gen_cases(rng, tier) + gen_xcases(rng, tier) + undef_cases(rng, tier)
         jcases = [c if 'undef' in c else case_json(c) for c in cases]
         results = core.run_impl('impl_ilt.py', jcases, timeout=1500 if tier == 'quick' else 6000)
         res.programs = len(set((tuple(sorted(tm['pat'] for tm in c['terms'])), json.dumps(c['opts']), c['damping']) for c in cases if 'undef' not in c))
         items = []
+        xitems = {}
         metas = {}
         orc = {}
         for i, (c, r) in enumerate(zip(cases, results)):
@@ -1053,10 +1311,18 @@ def run(tier='quick', replay=None):
                 continue
             else:
                 orc[i] = oracle(c, r, rng)
-            txt, meta = coq_case(i, c, r, bool(tr is not None and tr.ds_guard_omega1), bool(tr is not None and tr.ds_guard_degree), bool(tr is not None and tr.ds_guard_real))
-            if txt is not None:
-                items.append((i, txt))
-                metas[i] = meta
+            if c.get('sqrtd'):
+                txt, meta = coq_case_x(i, c, r, bool(tr is not None and tr.ds_guard_omega1), bool(tr is not None and tr.ds_guard_degree), bool(tr is not None and tr.ds_guard_real))
+                res.count('irrational_pole_cases' if any(tm['pat'].startswith('irr_') for tm in c['terms']) else 'damped_sin_irrational_omega_cases')
+                if txt is not None:
+                    xitems.setdefault(c['sqrtd'], []).append((i, txt))
+                    metas[i] = meta
+                    res.count('irrational_pole_cases_compared_in_coq' if any(tm['pat'].startswith('irr_') for tm in c['terms']) else 'damped_sin_irrational_omega_compared_in_coq')
+            else:
+                txt, meta = coq_case(i, c, r, bool(tr is not None and tr.ds_guard_omega1), bool(tr is not None and tr.ds_guard_degree), bool(tr is not None and tr.ds_guard_real))
+                if txt is not None:
+                    items.append((i, txt))
+                    metas[i] = meta
             for tm in c['terms']:
                 res.count('pattern_' + tm['pat'])
             res.count('terms_%d' % len(c['terms']))
@@ -1071,12 +1337,17 @@ def run(tier='quick', replay=None):
             res.add_case(json.dumps(jcases[i], sort_keys=True), nontrivial,
                          {'case': r.get('expr'), 'opts': c['opts'], 'lcapy': r.get('obs')} if i in (0, 4, 11, 23, 40) else None)
         codes = {}
-        if gen_ok and items:
+        if gen_ok and (items or xitems):
             shards = [items[k:k + 40] for k in range(0, len(items), 40)]
             fns = []
             for si, sh in enumerate(shards):
                 w.write('cases_%d.v' % si, cases_v([t for _, t in sh]))
                 fns.append('cases_%d.v' % si)
+            for d_, its in sorted(xitems.items()):
+                for k in range(0, len(its), 25):
+                    fn_ = 'casesx_%d_%d.v' % (d_, k // 25)
+                    w.write(fn_, casesx_v([t for _, t in its[k:k + 25]], d_))
+                    fns.append(fn_)
             cr = core.coqc_many(w.dir, fns, timeout=900)
             for f, (ok, out, secs) in cr.items():
                 fl = parse_pairs(out) if ok else None
@@ -1086,14 +1357,15 @@ def run(tier='quick', replay=None):
                 else:
                     for idx, code in fl:
                         codes[idx] = code
-            res.extra['traces_validated_against_impl'] = len(items)
+            res.extra['traces_validated_against_impl'] = len(items) + sum(len(v) for v in xitems.values())
             res.extra['case_eval_seconds'] = round(max([r[2] for r in cr.values()] + [0]), 1)
         res.rule = ('cases: corpus (F10, critically damped do_damped_sin, nested delay, time advance, second-order sections) + %d generated sums of 1-3 '
                     'delayed rational functions from 10 pole patterns (real simple/repeated/multiplicity 5, origin, conjugate pairs, repeated conjugate '
                     'pairs, single complex, imaginary pairs, polynomial only, mixed) x proper/improper x ratio/factored/partial-fraction input form '
                     'x a systematic sweep of causal/ac/dc (ordered), damped_sin, damping, zero_initial_conditions; every case transformed three times '
-                    '(cache hit, other options in between); non-trivial = Lcapy returned a time function that parses to the normal form'
-                    % (len(cases) - len(corpus_cases())))
+                    '(cache hit, other options in between); %d of them with irrational poles (real and complex, sqrt 2 / sqrt 3, simple and double) '
+                    'compared over Q(i)(sqrt d); non-trivial = Lcapy returned a time function that parses to the normal form'
+                    % (len(cases) - len(corpus_cases()), sum(1 for c_ in cases if c_.get('sqrtd'))))
 
         # 4. decide
         by_key = {}
@@ -1216,6 +1488,49 @@ Local Open Scope F_scope.
 ''' + DS_BODY + '''
 Print Assumptions damped_sin_1. Print Assumptions damped_sin_2. Print Assumptions damped_sin_3.
 '''
+
+
+def qext_v(tr):
+    return (HEADER % 'lcapy/inverse_laplace.py (instances over Q(i)(sqrt d))') + r"""
+(* poles, residues and exponents outside the Gaussian rationals: the quadratic extensions Q(i)(sqrt d), d prime,
+   are fields (LT.ILTQext, prime_nonsq: a prime is not a square in Q(i)); the main theorems of the TRANSLATED
+   transformer hold over them, and the executable glue LT.ILTCorrX evaluated in casesx_*.v is tied to them *)
+Require Import LT.FieldSec LT.PolyQ LT.QcI LT.ExpPoly LT.ILT LT.ILTQext LT.ILTCorrX Gen.ILTGen Gen.C10_branches Gen.C10_guard.
+From Coq Require Import ZArith Znumtheory.
+Local Open Scope F_scope.
+
+Theorem qext_nonsquare : forall d : positive, prime (Zpos d) -> forall x : qci, cimul x x <> ciofq (dq d).
+Proof. exact prime_nonsq. Qed.
+Theorem qext_j_sq : forall d Hd, @fmul (QxF d Hd) qxj qxj = @fopp (QxF d Hd) (@f1 (QxF d Hd)).
+Proof. exact qxj_sq. Qed.
+Theorem qext_sqrt_sq : forall d Hd, @fmul (QxF d Hd) qxsqrt qxsqrt = qxofci (ciofq (dq d)).
+Proof. exact qxsqrt_sq. Qed.
+
+Section Q.
+Variable d : positive.
+Variable Hd : nonsq d.
+Notation KX := (QxF d Hd).
+Variable E : Qc -> KX.
+Hypothesis E0 : E 0%Qc = 1.
+(* the model fed with certificate-checked (Q, R, P, O) over Q(i)(sqrt d) inverts the transform *)
+Theorem ILT_LT_cert_qext : forall (causal : bool) (const s : KX) (F : list (cterm KX)),
+  (forall ct, In ct F -> cert_ok ct = true /\ peval (ct_A ct) s <> 0) ->
+  exists m, doit_model KX qxconj (B_gen KX qxj) guard_gen causal const (map ct_term F) = Some m /\
+            dLval E s (m_c m) + Lval s (m_u m) = const * input_sum KX E s F.
+Proof. exact (ILT_LT_cert_gen KX qxj (qxj_sq d Hd) qxconj E E0). Qed.
+(* what casesx_*.v evaluates without damped-sin sources IS that model *)
+Theorem model_eval_qext : forall causal const (F : list (cterm KX)),
+  model_eval (K:=KX) qxconj (B_gen KX qxj) guard_gen causal const F [] = doit_model KX qxconj (B_gen KX qxj) guard_gen causal const (map ct_term F).
+Proof. intros. apply model_eval_cert. Qed.
+(* bit 4 of the case code clear: L(Lcapy's own output) = the input, over Q(i)(sqrt d) *)
+Theorem case_rt_sound_qext : forall const (F : list (cterm KX)) o, rt_check const F o = true ->
+  forall (s : KX), (forall ct, In ct F -> peval (ct_A ct) s <> (0 : KX)) ->
+  dLval E s (obs_dsig (map (fun i => fst (fst i)) (ins_of const F)) o) = const * input_sum KX E s F.
+Proof. intros const F o H s HA. exact (case_rt_sound KX const F o H E s HA). Qed.
+End Q.
+Print Assumptions qext_nonsquare. Print Assumptions qext_j_sq. Print Assumptions qext_sqrt_sq.
+Print Assumptions ILT_LT_cert_qext. Print Assumptions model_eval_qext. Print Assumptions case_rt_sound_qext.
+"""
 
 
 def extra_theorem_files(tr):
